@@ -353,62 +353,58 @@ class _Multi:
 
 
 def _declared_table(prog):
-    """Read MultiScaling._compute_scale_dtype's isinstance chain as a table:
-    class name -> 'float64' | 'raw' | 'scaler' | 'result_type' | 'input' ; plus default."""
+    """What MultiScaling._compute_scale_dtype declares for each scaling class, read from its normal form by evaluating the
+    isinstance tests for that class:  class name -> ('const', dtype) | 'raw' | 'scaler' | 'result_type' | 'input';  plus the
+    default (a class none of the tests names)."""
+    from .sym import Sym, eval_cond, show
+    from .sem import leaves, find, W
     fi = prog.func("scaling.MultiScaling._compute_scale_dtype")
-    table = {}
-    default = None
+    v = Sym(prog, fi, fi.cls).function_value()
+    if v[0] == "opaque" or not find(v, ("call", "isinstance", W(), W())):
+        raise AnchorMissing("scaling.MultiScaling._compute_scale_dtype: isinstance chain")
+    ps = [p for p in fi.params if p != "self"]
+    IDX, RAW, SCALERS = ("param", ps[0]), ("param", ps[1]), ("param", ps[2])
 
-    def classify(ret):
-        if ret is None:
-            return "?"
-        txt = unparse(ret)
-        if isinstance(ret, ast.Call) and call_name(ret) in ("np.dtype", "numpy.dtype") and ret.args and isinstance(ret.args[0], ast.Constant):
-            return ("const", ret.args[0].value)
-        if isinstance(ret, ast.Call) and call_name(ret) in ("np.result_type", "numpy.result_type"):
+    def classify(leaf):
+        if leaf[0] == "call" and str(leaf[1]).endswith("dtype") and leaf[2] and leaf[2][0][0] == "const":
+            return ("const", leaf[2][0][1])
+        if leaf[0] == "call" and str(leaf[1]).endswith("result_type"):
             return "result_type"
-        if isinstance(ret, ast.Call) and call_name(ret) == "self._compute_scale_dtype":
+        if leaf[0] == "call" and leaf[1] == fi.qual:
             return "input"
-        if "scaler_data_types" in txt:
+        if find(leaf, SCALERS):
             return "scaler"
-        if txt.endswith("raw_data_type.nptype"):
+        if leaf == ("attr", RAW, "nptype"):
             return "raw"
         return "?"
 
-    def names_of(test):
-        out = []
-        for n in ast.walk(test):
-            if isinstance(n, ast.Call) and call_name(n) == "isinstance" and len(n.args) == 2:
-                t = n.args[1]
-                for x in (t.elts if isinstance(t, ast.Tuple) else [t]):
-                    if isinstance(x, ast.Name):
-                        out.append(x.id)
-        return out
-
-    def walk_if(node):
-        nonlocal default
-        names = names_of(node.test)
-        rets = [s for s in node.body if isinstance(s, ast.Return)]
-        kind = classify(rets[0].value) if rets else "?"
-        for nm in names:
-            table.setdefault(nm, kind)
-        if len(node.orelse) == 1 and isinstance(node.orelse[0], ast.If):
-            walk_if(node.orelse[0])
-        else:
-            rets = [s for s in node.orelse if isinstance(s, ast.Return)]
-            if rets:
-                default = classify(rets[0].value)
-    found = False
-    for s in fi.node.body:
-        if isinstance(s, ast.If) and names_of(s.test):
-            walk_if(s)
-            found = True
-    if not found:
-        raise AnchorMissing("scaling.MultiScaling._compute_scale_dtype: isinstance chain")
-    if default is None:
-        # trailing return after the chain
-        rets = [s for s in fi.node.body if isinstance(s, ast.Return)]
-        default = classify(rets[-1].value) if rets else "?"
+    def kind_for(ci):
+        def orc(c):
+            if isinstance(c, tuple) and len(c) == 4 and c[0] == "cmp" and c[1] == "==" and IDX in (c[2], c[3]):
+                return False          # not the raw-data input source
+            if isinstance(c, tuple) and c and c[0] == "call" and c[1] == "isinstance" and len(c[2]) == 2:
+                t = c[2][1]
+                names = [x[1] for x in (t[1] if t[0] == "tuple" else [t]) if isinstance(x, tuple) and x[0] == "class"]
+                if ci is None:
+                    return False
+                return any(k.qual in names for k in prog.mro(ci))
+            return None
+        outs = set()
+        for conds, leaf in leaves(v):
+            vals = [eval_cond(c, orc) for c in conds]
+            if any(x is False for x in vals):
+                continue
+            outs.add(classify(leaf))
+        return outs.pop() if len(outs) == 1 else "?"
+    table = {}
+    named = set()
+    for x, _b in find(v, ("class", W())):
+        named.add(x[1])
+    for q in sorted(named):
+        ci = prog.classes.get(q)
+        if ci is not None:
+            table[ci.name] = kind_for(ci)
+    default = kind_for(None)
     return table, default
 
 
